@@ -33,3 +33,32 @@ func addHook(f func(point, a, b int)) {
 		}
 	})
 }
+
+// pushHook registers f for the duration of one case and returns its remover.
+func pushHook(f func(point, a, b int)) func() {
+	type boxed struct{ f func(point, a, b int) }
+	bx := &boxed{f}
+	wrapped := func(point, a, b int) {
+		if g := bx.f; g != nil {
+			g(point, a, b)
+		}
+	}
+	addHook(wrapped)
+	return func() {
+		hookMu.Lock()
+		defer hookMu.Unlock()
+		bx.f = nil
+		// drop cleared entries so the list does not grow with the number of cases
+		if p := hookList.Load(); p != nil {
+			var kept []func(point, a, b int)
+			for _, h := range *p {
+				kept = append(kept, h)
+			}
+			// remove the last occurrence (the one pushed by this call)
+			if n := len(kept); n > 0 {
+				kept = kept[:n-1]
+			}
+			hookList.Store(&kept)
+		}
+	}
+}
